@@ -304,9 +304,9 @@ pub fn call_readonly<O: ReadOnly + ?Sized>(rv: &mut Recv<O>, mi: usize, a: &mut 
 
 // Shapes -------------------------------------------------------------------------------------
 
-pub const SHAPES: [Meth; 24] = [
+pub const SHAPES: [Meth; 26] = [
     m("s_slice"), m("s_slice_u64"), m("s_slice_mut"), m("s_str"), m("s_opt"), m("s_opt_ref"), m("s_mixed"), m("s_res"), m("s_into"), m("s_struct"),
-    m("s_cb"), m("s_iter"), m("s_ret_str"), m("s_ret_slice"), m("s_ret_mut_slice"), m("s_ret_opt_ref"), m("s_str_to_str"), m("s_vec"), m("s_mut_ref"), m("s_two_slices"), m("s_opt_then_slice"), m("s_two_mut"), m("s_unit_slice"), m("s_ret_unit_slice"),
+    m("s_cb"), m("s_iter"), m("s_ret_str"), m("s_ret_slice"), m("s_ret_mut_slice"), m("s_ret_opt_ref"), m("s_str_to_str"), m("s_vec"), m("s_mut_ref"), m("s_two_slices"), m("s_opt_then_slice"), m("s_two_mut"), m("s_unit_slice"), m("s_ret_unit_slice"), m("s_two_opts"), m("s_two_into"),
 ];
 
 /// Source iterator for CIterator arguments: counts how far it was advanced.
@@ -504,6 +504,16 @@ pub fn call_shapes<O: Shapes + ?Sized>(rv: &mut Recv<O>, mi: usize, a: &mut A) -
             let v = &TICKS[(a.u(1) % 7) as usize..][..n];
             a.note(v);
             Ret::U(o.s_unit_slice(v) as u64)
+        }
+        24 => {
+            let o = need_mut!(rv);
+            let lo = if a.flag(2) { Some(a.u(0)) } else { None };
+            let hi = if a.raw(3) % 4 != 0 { Some(a.u(1) ^ 0xF0F0) } else { None };
+            Ret::U(o.s_two_opts(lo, hi))
+        }
+        25 => {
+            let o = need_mut!(rv);
+            Ret::U(o.s_two_into(a.u(0) as u32, a.u(1) ^ 0x1_0000_0001))
         }
         23 => {
             let r = rv.r().s_ret_unit_slice();
